@@ -128,6 +128,10 @@ def _cubic_A(module, left, right, family, min_w):
 # ------------------------------------------------------------------------------------------------------------------
 # leaf builders
 
+# one list object shared by every UMNN construction, the way a configuration variable is reused: constructors must not modify it
+UMNN_LAYERS = [8, 8]
+
+
 def _img(shape):
     return len(shape) == 3
 
@@ -309,7 +313,7 @@ def build_leaf(spec, shape, ctxk):
             m = cls(mask, net, **kw)
             return Built(m, shape, uses_ctx=uses_ctx, smooth=smooth and spec.get("scale_act") != "general", tags=["coupling"])
         if t == "c_umnn":
-            m = T.UMNNCouplingTransform(mask, net, integrand_net_layers=[8, 8], cond_size=3, nb_steps=20,
+            m = T.UMNNCouplingTransform(mask, net, integrand_net_layers=UMNN_LAYERS, cond_size=3, nb_steps=20,
                                         solver=spec.get("solver", "CCParallel"),
                                         apply_unconditional_transform=bool(spec.get("uncond", False)))
             nt = sum(1 for v in mask if v > 0) + (len(mask) if spec.get("uncond") else 0)
@@ -344,7 +348,7 @@ def build_leaf(spec, shape, ctxk):
                 m = T.MaskedAffineAutoregressiveTransform(**kw)
                 return Built(m, shape, uses_ctx=uses_ctx, smooth=smooth, tags=["ar"])
             if t == "ar_umnn":
-                m = T.MaskedUMNNAutoregressiveTransform(integrand_net_layers=[8, 8], cond_size=3, nb_steps=20,
+                m = T.MaskedUMNNAutoregressiveTransform(integrand_net_layers=UMNN_LAYERS, cond_size=3, nb_steps=20,
                                                         solver=spec.get("solver", "CCParallel"), **kw)
                 return Built(m, shape, uses_ctx=uses_ctx, smooth=smooth, umnn=True, A_ld=5e-3 * D, A_out=1e-4, A_inv=3e-5,
                              inv_via_forward=True, tags=["ar", "umnn"])
